@@ -329,7 +329,8 @@ public:
     {
         invariants();
 
-        return m_data.at(theIndex);
+        // m_data also holds the terminator: length() is out of range.
+        return m_data.at(theIndex < m_size ? theIndex : m_data.size());
     }
 
     reference
@@ -337,7 +338,7 @@ public:
     {
         invariants();
 
-        return m_data.at(theIndex);
+        return m_data.at(theIndex < m_size ? theIndex : m_data.size());
     }
 
     const XalanDOMChar*
